@@ -6,7 +6,9 @@ Model: `OFCore/ParamView.lean` (the tree WITH the repairs F-C07, F-C07b, F-C07c;
 modifiers accumulate, repair C14e). A `World` is the whole process: the systems alive (a plain
 `TaxBenefitSystem` and the `Reform`s built on it) and the ONE memo `functools.lru_cache` keeps for
 `get_parameters_at_instant`, keyed by `(system, spelling of the instant, date)`. Operations: `readView`,
-`readTree`, `readFormula traced?`, `newReform`, `modify f` (any modifier function), `reload`.
+`readTree`, `readFormula traced?`, `newReform`, `modify f` (any modifier function, which may itself read
+any system through any route while it runs: a `ModProg`), `reload` (with its `preprocess_parameters`
+hook, the only user code that runs inside `load_parameters`).
 Every theorem is for all trees, all histories, all dates, all paths, all key / date vectors, with no
 bound on any size; values are an arbitrary type `V`.
 -/
@@ -32,7 +34,7 @@ theorem C07_view_current (w : World V) (hw : MemoOK w) (ops : List (Op V)) (s fo
   refine ⟨hrun, ?_⟩
   obtain ⟨w', v, hv⟩ := viewAt_isSome form d hs
   have := (viewAt_spec hrun hv).1
-  simp only [step, hv, this]
+  simp only [step, doRead, hv, this]
 
 /-- the same from the fresh process -/
 theorem C07_view_current_init (ops : List (Op V)) (s form : Nat) (d : Int)
@@ -49,7 +51,7 @@ example :
     let t : PNode Nat := .node [("basic_income", .param [⟨10, some 600⟩])]
     let w0 : World Nat := ⟨[⟨some t, none⟩], []⟩
     let f : PNode Nat → Except String (PNode Nat) := fun _ => .ok (.node [("basic_income", .param [⟨20, some 777⟩, ⟨10, some 600⟩])])
-    let ops : List (Op Nat) := [.newReform 0, .readView 1 0 25 [], .modify 1 f]
+    let ops : List (Op Nat) := [.newReform 0, .readView 1 0 25 [], .modify 1 (pureMod f)]
     (step (run w0 ops) (.readView 1 0 25 ["basic_income"])).2 = .value (.ok (some (.val 777))) [] ∧
     (step (run w0 ops) (.readView 0 0 25 ["basic_income"])).2 = .value (.ok (some (.val 600))) [] ∧
     (step (run w0 (ops.take 2)) (.readView 1 0 25 ["basic_income"])).2 = .value (.ok (some (.val 600))) [] := by
@@ -86,9 +88,9 @@ theorem C07_all_paths_agree (w : World V) (hw : MemoOK w) (s : Nat) (hs : s < w.
   obtain ⟨ht1, extra, ht2, _⟩ := navTraced_spec d ((PNode.node cs).atInstant d) path []
   refine ⟨navView ((PNode.node cs).atInstant d) path, (navTraced d ((PNode.node cs).atInstant d) path []).2,
     rfl, ?_, ?_, ?_, ?_, ?_⟩
-  · simp only [step, hv1, e1]
-  · simp only [step, hv2, e2, Bool.false_eq_true, if_false]
-  · simp only [step, hv3, e3, if_true]
+  · simp only [step, doRead, hv1, e1]
+  · simp only [step, doRead, hv2, e2, Bool.false_eq_true, if_false]
+  · simp only [step, doRead, hv3, e3, if_true]
     rw [← ht1]
   · have hr : ∃ r, w.systems[s]? = some r ∧ r.tree = some (.node cs) := by
       unfold World.treeOf at ht
@@ -96,7 +98,7 @@ theorem C07_all_paths_agree (w : World V) (hw : MemoOK w) (s : Nat) (hs : s < w.
       | none => rw [hr] at ht; cases ht
       | some r => rw [hr] at ht; exact ⟨r, rfl, ht⟩
     obtain ⟨r, hr1, hr2⟩ := hr
-    simp only [step, hr1, hr2]
+    simp only [step, doRead, hr1, hr2]
   · have hat : (PNode.node cs).atInstant d = some (.node (childrenAt cs d)) := by simp [PNode.atInstant]
     obtain ⟨h1, h2⟩ := descend_agree (.node cs) hwf d _ hat path
     rw [hat]
@@ -244,6 +246,113 @@ example : shownRows (asof (W := Nat) some (Snap.node [("after_1990_01_01", .val 
     = some [[1], [2], [2], [3], [3]] := by decide +kernel
 example : AsofWF ["after_1990_01_01", "before_1980_01_01", "after_1980_01_01"] := by decide +kernel
 
+/-! ## Reads made WHILE a modification is under way -/
+
+/-- all the routes of one system read the tree `t` -/
+def AllRoutesRead (w : World V) (s : Nat) (t : PNode V) : Prop :=
+  ∀ (form : Nat) (d : Int) (path : List String),
+    (step w (.readView s form d path)).2 = .value (navView (t.atInstant d) path) [] ∧
+    (step w (.readFormula s false form d path)).2 = .value (navView (t.atInstant d) path) [] ∧
+    (∃ log, (step w (.readFormula s true form d path)).2 = .value (navView (t.atInstant d) path) log) ∧
+    (step w (.readTree s path d)).2 = .value (readTreeAt t path d) []
+
+theorem allRoutesRead_of (w : World V) (hw : MemoOK w) (s : Nat) (hs : s < w.systems.length) (t : PNode V)
+    (ht : w.treeOf s = some t) : AllRoutesRead w s t := by
+  intro form d path
+  have hsnap : snapshot (w.treeOf s) d = t.atInstant d := by rw [ht]; rfl
+  obtain ⟨w1, v1, hv1⟩ := viewAt_isSome form d hs
+  have e1 := (viewAt_spec hw hv1).1
+  rw [hsnap] at e1
+  obtain ⟨ht1, extra, ht2, _⟩ := navTraced_spec d (t.atInstant d) path []
+  refine ⟨?_, ?_, ⟨(navTraced d (t.atInstant d) path []).2, ?_⟩, ?_⟩
+  · simp only [step, doRead, hv1, e1]
+  · simp only [step, doRead, hv1, e1, Bool.false_eq_true, if_false]
+  · simp only [step, doRead, hv1, e1, if_true]
+    rw [← ht1]
+  · unfold World.treeOf at ht
+    cases hr : w.systems[s]? with
+    | none => rw [hr] at ht; cases ht
+    | some r =>
+      rw [hr] at ht
+      simp only at ht
+      simp only [step, doRead, hr, ht]
+
+/-- `modify_parameters` is three sub-steps in the code's order — copy the reform's tree, run the
+    modifier (which may read ANY system through ANY route and spelling, any number of times, each read
+    depending on the earlier ones: `f t` is an arbitrary `ModProg`), install the result and only then
+    empty the memo. Whatever the modifier read on the way, once the modification completes the memo
+    is empty, the state is sound, and every route of the reform — view in every spelling, formula,
+    traced formula, parameter object — reads the NEW tree, at every date and path. -/
+theorem C07_modify_nested_reads (w : World V) (s b : Nat) (r : SysRec V) (t t' : PNode V)
+    (hr : w.systems[s]? = some r) (hb : r.baseline = some b) (ht : r.tree = some t)
+    (f : PNode V → ModProg V) (w1 : World V) (hrun : runProg w (f t) = (w1, .ok t'))
+    (hn : isNode t' = true) :
+    (step w (.modify s f)).2 = .done ∧
+    (step w (.modify s f)).1.memo = [] ∧ MemoOK (step w (.modify s f)).1 ∧
+    (step w (.modify s f)).1.treeOf s = some t' ∧
+    AllRoutesRead (step w (.modify s f)).1 s t' := by
+  have hs := lt_of_get hr
+  have hsys : w1.systems = w.systems := by
+    have := runProg_systems w (f t); rw [hrun] at this; exact this
+  have hstep : step w (.modify s f) = ({ systems := setTree w1.systems s t', memo := [] }, .done) := by
+    simp only [step, hr, hb, ht, hrun, hn, if_true]
+  rw [hstep]
+  have htree : (⟨setTree w1.systems s t', []⟩ : World V).treeOf s = some t' :=
+    treeOf_setTree_eq w1.systems [] s t' (by rw [hsys]; exact hs)
+  refine ⟨rfl, rfl, memoOK_nil _, htree, ?_⟩
+  exact allRoutesRead_of _ (memoOK_nil _) s (by simp only [length_setTree, hsys]; exact hs) t' htree
+
+/-- The same for `load_parameters`. No user code runs inside it except the system's
+    `preprocess_parameters` hook (a plain caller cannot interleave a read with it); that hook runs on the
+    freshly built tree BEFORE it is installed, and the memo is emptied after the installation: whatever
+    the hook read, every route reads the new tree afterwards. -/
+theorem C07_reload_nested_reads (w : World V) (s : Nat) (hs : s < w.systems.length)
+    (cs : List (String × PNode V)) (hook : PNode V → ModProg V) (w1 : World V) (t' : PNode V)
+    (hrun : runProg w (hook (.node cs)) = (w1, .ok t')) :
+    (step w (.reload s cs hook)).1.memo = [] ∧ MemoOK (step w (.reload s cs hook)).1 ∧
+    (step w (.reload s cs hook)).1.treeOf s = some t' ∧
+    AllRoutesRead (step w (.reload s cs hook)).1 s t' := by
+  have hsys : w1.systems = w.systems := by
+    have := runProg_systems w (hook (.node cs)); rw [hrun] at this; exact this
+  have hstep : step w (.reload s cs hook) = ({ systems := setTree w1.systems s t', memo := [] }, .done) := by
+    simp only [step, List.getElem?_eq_getElem hs, hrun]
+  rw [hstep]
+  have htree : (⟨setTree w1.systems s t', []⟩ : World V).treeOf s = some t' :=
+    treeOf_setTree_eq w1.systems [] s t' (by rw [hsys]; exact hs)
+  refine ⟨rfl, memoOK_nil _, htree, ?_⟩
+  exact allRoutesRead_of _ (memoOK_nil _) s (by simp only [length_setTree, hsys]; exact hs) t' htree
+
+/-- While the modifier runs, every system — the reform included — still has the tree it had at entry,
+    and that is what the modifier's reads return: after any number of nested reads the state is still
+    sound, the trees are unchanged, and a view read returns the snapshot of the tree in place. -/
+theorem C07_nested_read_sees_former_tree (w : World V) (hw : MemoOK w) (p : ModProg V)
+    (s form : Nat) (d : Int) (path : List String) (hs : s < w.systems.length) :
+    MemoOK (runProg w p).1 ∧ (runProg w p).1.systems = w.systems ∧
+    (doRead (runProg w p).1 (.view s form d path)).2 = .value (navView (snapshot (w.treeOf s) d) path) [] := by
+  obtain ⟨h1, h2⟩ := runProg_spec w hw p
+  refine ⟨h1, h2, ?_⟩
+  obtain ⟨w', v, hv⟩ := viewAt_isSome (w := (runProg w p).1) form d (by rw [h2]; exact hs)
+  have := (viewAt_spec h1 hv).1
+  rw [treeOf_congr h2] at this
+  simp only [doRead, hv, this]
+
+/-- A modifier that looks up the value in force through the reform's own view, then raises it: 7
+    while it runs, 70 through every route once it is done — and the order of the sub-steps matters:
+    emptying the memo BEFORE running the modifier (`stepClearFirst`) leaves the view read by the
+    modifier in the memo, and the same read gives the stale 7 after the modification. -/
+example :
+    let w0 : World Nat := ⟨[⟨some (.node [("x", .param [⟨10, some 7⟩])]), none⟩,
+                           ⟨some (.node [("x", .param [⟨10, some 7⟩])]), some 0⟩], []⟩
+    let f : PNode Nat → ModProg Nat := fun _ =>
+      .read (.view 1 0 12 ["x"]) (fun _ => .ret (.ok (.node [("x", .param [⟨10, some 70⟩])])))
+    (step (step w0 (.modify 1 f)).1 (.readView 1 0 12 ["x"])).2 = .value (.ok (some (.val 70))) [] ∧
+    (step (step w0 (.modify 1 f)).1 (.readFormula 1 true 0 12 ["x"])).2
+      = .value (.ok (some (.val 70))) [⟨".x", 12, 70⟩] ∧
+    (step (step w0 (.modify 1 f)).1 (.readTree 1 ["x"] 12)).2 = .value (.ok (some (.val 70))) [] ∧
+    (step (stepClearFirst w0 1 f) (.readView 1 0 12 ["x"])).2 = .value (.ok (some (.val 7))) [] ∧
+    (step (stepClearFirst w0 1 f) (.readTree 1 ["x"] 12)).2 = .value (.ok (some (.val 70))) [] :=
+  ⟨rfl, rfl, rfl, rfl, rfl⟩
+
 /-! ## A reform's modifications leave every other system alone -/
 
 /-- Whatever is done through reforms — creating them, running any modifier functions on them,
@@ -269,7 +378,7 @@ theorem C07_reform_isolated (w : World V) (hw : MemoOK w) (ops : List (Op V)) (b
         (step w' (.readTree b path d)).2 = (step w (.readTree b path d)).2 := by
       intro w' h1 h2
       unfold World.treeOf at h1
-      simp only [step]
+      simp only [step, doRead]
       rw [List.getElem?_eq_getElem h2, List.getElem?_eq_getElem hb] at h1 ⊢
       simp only at h1 ⊢
       rw [h1]
@@ -281,12 +390,12 @@ theorem C07_reform_isolated (w : World V) (hw : MemoOK w) (ops : List (Op V)) (b
     have e1 := (viewAt_spec hrun hv1).1
     have e2 := (viewAt_spec hw hv2).1
     rw [htree] at e1
-    simp only [step, hv1, hv2, e1, e2]
+    simp only [step, doRead, hv1, hv2, e1, e2]
     cases traced <;> simp
 
 example :
     let f : PNode Nat → Except String (PNode Nat) := fun _ => .ok (.node [("x", .param [⟨10, some 70⟩])])
-    ∀ op ∈ ([.newReform 0, .readView 0 0 12 [], .modify 1 f, .reload 1 [], .readView 1 0 12 []] : List (Op Nat)),
+    ∀ op ∈ ([.newReform 0, .readView 0 0 12 [], .modify 1 (pureMod f), .reload 1 [] noHook, .readView 1 0 12 []] : List (Op Nat)),
       op.target ≠ some 0 := by
   intro f op hop
   simp only [List.mem_cons, List.not_mem_nil, or_false] at hop
@@ -295,7 +404,7 @@ example :
 example :
     let w0 : World Nat := ⟨[⟨some (.node [("x", .param [⟨10, some 7⟩])]), none⟩], []⟩
     let f : PNode Nat → Except String (PNode Nat) := fun _ => .ok (.node [("x", .param [⟨10, some 70⟩])])
-    let ops : List (Op Nat) := [.newReform 0, .readView 0 0 12 [], .modify 1 f]
+    let ops : List (Op Nat) := [.newReform 0, .readView 0 0 12 [], .modify 1 (pureMod f)]
     (step (run w0 ops) (.readView 0 0 12 ["x"])).2 = .value (.ok (some (.val 7))) [] ∧
     (step (run w0 ops) (.readView 1 0 12 ["x"])).2 = .value (.ok (some (.val 70))) [] := ⟨rfl, rfl⟩
 
@@ -312,4 +421,7 @@ end OFCore
 #print axioms OFCore.C07_fancy_subnode
 #print axioms OFCore.C07_keys_stringified
 #print axioms OFCore.C07_asof_pointwise
+#print axioms OFCore.C07_modify_nested_reads
+#print axioms OFCore.C07_reload_nested_reads
+#print axioms OFCore.C07_nested_read_sees_former_tree
 #print axioms OFCore.C07_reform_isolated
